@@ -36,6 +36,7 @@ type bsys struct {
 	lvl      int           // nesting of per-edge sub-systems (phi operands)
 	relDone  map[[2]ssa.Value]bool
 	cuts     []bcut // len nodes of slice expressions x[lo:hi] with a non-constant lo
+	diffs    []bdiff
 	guards   []Guard
 	lenVals  map[bnode]lenVal // len/cap nodes and the value they measure
 	termDone map[string]bool
@@ -47,6 +48,9 @@ type lenVal struct {
 }
 
 type bcut struct{ ln, lo, hi bnode }
+
+// bdiff records t = x - y (no wrap: y <= x), so that a + b <= x follows from a == y and b <= t.
+type bdiff struct{ t, x, y bnode }
 
 const binf = int64(1) << 60
 
@@ -315,14 +319,46 @@ func (s *bsys) term(v ssa.Value) bnode {
 			s.le(n, s.lenOf(x.Call.Args[1]), 0)
 		}
 		if b, ok := x.Call.Value.(*ssa.Builtin); ok && (b.Name() == "min" || b.Name() == "max") {
+			var argNodes []bnode
 			for _, a := range x.Call.Args {
 				an := s.term(a)
+				argNodes = append(argNodes, an)
 				if b.Name() == "min" {
 					s.le(n, an, 0)
 				} else {
 					s.le(an, n, 0)
 				}
 			}
+			isMin := b.Name() == "min"
+			s.pend = append(s.pend, func() bool {
+				// the other side: min is at least the least lower bound, max at most the greatest upper bound
+				best, ok := int64(0), true
+				for i, an := range argNodes {
+					var v int64
+					var has bool
+					if isMin {
+						v, has = s.constLo(an)
+					} else {
+						v, has = s.constHi(an)
+					}
+					if !has {
+						ok = false
+						break
+					}
+					if i == 0 || (isMin && v < best) || (!isMin && v > best) {
+						best = v
+					}
+				}
+				if !ok {
+					return false
+				}
+				if isMin {
+					s.le("0", n, -best)
+				} else {
+					s.le(n, "0", best)
+				}
+				return true
+			})
 		}
 		if callee := x.Call.StaticCallee(); callee != nil && callee.Object() != nil {
 			switch callee.Object().(*types.Func).FullName() {
@@ -408,6 +444,21 @@ func (s *bsys) term(v ssa.Value) bnode {
 					// lo + m with m <= len(x[lo:hi]) = hi - lo: the sum does not exceed hi (filling spare capacity)
 					s.pend = append(s.pend, func() bool {
 						done := false
+						// a + b with b <= x - a: the sum does not exceed x
+						for _, df := range s.diffs {
+							for _, pr := range [][2]bnode{{xn, yn}, {yn, xn}} {
+								if d, ok := s.bound(pr[0], df.y); !ok || d != 0 {
+									continue
+								}
+								if d, ok := s.bound(df.y, pr[0]); !ok || d != 0 {
+									continue
+								}
+								if k, ok := s.bound(pr[1], df.t); ok && s.lengthLike(pr[0]) && s.lengthLike(pr[1]) {
+									s.le(n, df.x, k)
+									done = true
+								}
+							}
+						}
 						for _, c := range s.cuts {
 							for _, pr := range [][2]bnode{{xn, yn}, {yn, xn}} {
 								if d, ok := s.bound(pr[0], c.lo); !ok || d != 0 {
@@ -448,6 +499,7 @@ func (s *bsys) term(v ssa.Value) bnode {
 						if d, ok := s.bound(yn, xn); ok && d <= 0 { // y <= x: no wrap, 0 <= x-y <= x
 							s.le("0", n, 0)
 							s.le(n, xn, 0)
+							s.diffs = append(s.diffs, bdiff{n, xn, yn})
 							if ly, ok := s.constLo(yn); ok {
 								s.le(n, xn, -ly)
 							}
@@ -512,6 +564,9 @@ func (s *bsys) term(v ssa.Value) bnode {
 			case su == du && db >= sb, su && !du && db > sb:
 				s.eq(n, src, 0)
 			default:
+				if su && du {
+					s.le(n, src, 0) // truncating an unsigned value never makes it larger
+				}
 				s.pend = append(s.pend, func() bool {
 					if db >= s.word && s.lengthLike(src) {
 						s.eq(n, src, 0)
@@ -745,6 +800,11 @@ func (s *bsys) callPost(call *ssa.Call, n bnode) {
 			if errIdx >= 0 && errIdx < len(rc.Vals) {
 				if f := valueFactOf(rc.Vals[errIdx]); f == 'N' {
 					continue // an error return
+				}
+				if u, isU := rc.Vals[errIdx].(*ssa.UnOp); isU && u.Op == token.MUL {
+					if _, isG := u.X.(*ssa.Global); isG {
+						continue // a package-level sentinel error (io.ErrUnexpectedEOF): never nil by convention
+					}
 				}
 				if retErrTestedNonNil(rc, errIdx) {
 					continue
